@@ -231,7 +231,11 @@ func (l *Lexer) shiftRawText() []byte {
 	} else { // RCDATA, RAWTEXT and SCRIPT
 		for {
 			c := l.r.Peek(0)
-			if c == '<' {
+			if 0 < len(l.tmplBegin) && l.at(l.tmplBegin...) { // before the test for '<': template delimiters may start with it
+				l.r.Move(len(l.tmplBegin))
+				l.moveTemplate()
+				l.hasTmpl = true
+			} else if c == '<' {
 				if l.r.Peek(1) == '/' {
 					mark := l.r.Pos()
 					l.r.Move(2)
